@@ -75,6 +75,9 @@ PublishCases ==
            s \in {2, 127, 128, 16383, 16384, 2097151, 2097152, 268435455} }
   \cup { [Case0 EXCEPT !.t = "PUBLISH", !.qos = 0, !.topic = F("t", 2), !.payload = F("p", 3), !.props = <<Sid, p>>] :
            p \in {PQ(2, x) : x \in U32s} \cup {PI(35, x) : x \in {1, 65535}} \cup {PI(1, 0)} \cup {PS(9, F("c", n)) : n \in SLens} \cup {PS(3, F("c~", n)) : n \in SLens} }
+  \* a zero-length Topic Name is legal when a Topic Alias stands in for it (3.3.2.1): accepted, both values exposed as sent
+  \cup { [Case0 EXCEPT !.t = "PUBLISH", !.qos = q, !.id = 5, !.topic = F("", 0), !.payload = F("p", 3), !.props = pp] :
+           q \in {0, 1, 2}, pp \in {<<Sid, PI(35, 1)>>, <<PI(35, 65535), Sid>>, <<PI(35, 2), Sid, Ups1>>} }
 ASSUME PrintT(<<"publish cases", Cardinality(PublishCases)>>)
 ASSUME ndJsonSerialize(Out("rx_publish.ndjson"), SetToSeq({[c |-> c, len |-> RxLen(c), acc |-> [ok |-> PublishAcc(c)]] : c \in PublishCases}))
 
